@@ -14,6 +14,8 @@
 #include "containers/tbfmemorymultivvector.hpp"
 #include "common.hpp"
 #include <cstring>
+#include <algorithm>
+#include <vector>
 #include <memory>
 
 template <int N> struct Blob { unsigned char b[N]; };
@@ -46,6 +48,24 @@ void visit_block(Mem& blk, F&& f){
         const long n = v.getNbItems(); const long rows = rows_of<Hh>::v;
         for(long i : {0L, n/2, n-1}) for(long r : {0L, rows-1}) if(i >= 0 && i < n) f(IdxBlock, i, r, v.getItem(i, r));
     }
+}
+
+// visits EVERY element of block IdxBlock through the viewer: f(address)
+template <class BlockT, class Mem, long IdxBlock, class F>
+void visit_block_full(Mem& blk, F&& f){
+    auto v = blk.template getViewerForBlock<IdxBlock>();
+    using W = typename BlockT::Width; using Hh = typename BlockT::Height;
+    if constexpr (std::is_same<W, TbfMemoryDim::Scalar>::value){
+        f(reinterpret_cast<unsigned char*>(&v.getItem()));
+    } else if constexpr (std::is_same<Hh, TbfMemoryDim::Scalar>::value){
+        for(long i = 0 ; i < v.getNbItems() ; ++i) f(reinterpret_cast<unsigned char*>(&v.getItem(i)));
+    } else {
+        for(long i = 0 ; i < v.getNbItems() ; ++i) for(long r = 0 ; r < rows_of<Hh>::v ; ++r) f(reinterpret_cast<unsigned char*>(&v.getItem(i, r)));
+    }
+}
+template <class Mem, class Tuple, size_t... Is, class F>
+void visit_all_full(Mem& blk, std::index_sequence<Is...>, F&& f){
+    (visit_block_full<typename std::tuple_element<Is, Tuple>::type, Mem, long(Is)>(blk, f), ...);
 }
 
 template <class Mem, class Tuple, size_t... Is, class F>
@@ -92,6 +112,15 @@ std::string run_mem(const Cmd& c, size_t a){
             const std::string a0 = acc_string(*blk, false, 0, &d0);
             const std::string a1 = acc_string(view, false, 0, &d1);
             out += "view acc=" + a1 + " same=" + std::to_string(int(a0 == a1 && d0 == d1));
+        }
+        else if(op == "F"){
+            // applyToAllElements must visit every element of every block exactly once (the same addresses as the viewers give)
+            std::vector<long> got, exp;
+            unsigned char* base = blk->getPtr();
+            blk->applyToAllElements([&](auto& item){ got.push_back(long(reinterpret_cast<unsigned char*>(&item) - base)); });
+            visit_all_full<Mem, Tuple>(*blk, std::make_index_sequence<NB>(), [&](unsigned char* p){ exp.push_back(long(p - base)); });
+            std::sort(got.begin(), got.end()); std::sort(exp.begin(), exp.end());
+            out += "each n=" + std::to_string(got.size()) + " same=" + std::to_string(int(got == exp));
         }
         else return out + "?op " + op;
     }
